@@ -6,6 +6,10 @@ props = [json.loads(l) for l in open(os.path.join(V, "properties.jsonl"))]
 ids = [p["id"] for p in props]
 
 CLAIMS = {
+ "C06": dict(cat="other", tech="IR access classification of the three ring indices (atomic load/store + ordering, AST check of explicit memory orders), CFG reachability between publish store and buffer copies, call-graph ownership of index stores, dominance of space and MaxMsg guards",
+    text="Decides the structural obligations every interleaving relies on: indices are std::atomic and accessed only atomically with acquire/release or stronger order; in ring_write (ring_read) no copy into (out of) the ring buffer is reachable after the index is published (released) and every copy is followed by an index advance; `write` is stored only from the producer API, `read`/`read_lookahead` only from the consumer API; each ring_write call is dominated by the free-space test on the same length and by a MaxMsg bound. A publish-before-copy or release-before-copy reordering - invisible to the single-threaded test - is reported with both lines. Linearizability and the modular index arithmetic are not decided.",
+    note="Trusted: clang -O0 IR, sa/irlib.py; assumes one producer and one consumer thread and that seq_cst/acq-rel atomics provide the visibility order.",
+    ref="DESIGN.md 2 C06"),
  "C14": dict(cat="other", tech="witness translation unit instantiating every port macro x field type; typed-AST shape rules on each generated callback; finite-domain evaluation of the clamp statements; OSC-format rule with the va_arg table extracted from rtosc_v2args",
     text="Quantifies over programs: every callback-producing macro of port-sugar.h is expanded over the field types it is used with (41 callbacks) and each expansion must satisfy: format/argument type agreement for every literal type string; a pure query branch answering at data.loc; incoming value read from the union member of the port's tag; clamp statements that, evaluated over values around the bounds in all four min/max presence configurations, compute clamp(v,min,max) with atoi/atof matching the variable type, before the single store, before the broadcast; exactly one correctly shaped /undo_change for numeric/option kinds and none for toggles/strings; array kinds index with one variable parsed from the address. A wrong cast or bound in one macro kind (e.g. floats only) is reported at that kind.",
     note="Trusted: clang AST of the expansions, sa/fdeval.py, the witness matrix (witness/gen_matrix.py). Does not decide option symbol lookup (enum_key) or arithmetic on particular values beyond the evaluated clamp table.",
